@@ -33,8 +33,10 @@ type XSpec struct {
 	Check func(c *Case, obj interface{}, path []int, lastResult string)
 	// CheckState is evaluated once per distinct state (heavier observers).
 	CheckState func(c *Case, obj interface{}, path []int)
-	Depth      int
-	MaxStates  int
+	// Warm (optional) calls the object's read-only operations; see warm().
+	Warm      func(obj interface{})
+	Depth     int
+	MaxStates int
 	// Workers caps the parallelism (1 when the object under test is process-global state).
 	Workers int
 }
@@ -128,8 +130,10 @@ func (r *Run) Explore(x XSpec) XResult {
 					var snap string
 					r.runCase(c, func(c *Case) {
 						obj := x.New()
+						x.warm(obj)
 						for _, o := range node.path {
 							x.Ops[o].Do(obj)
+							x.warm(obj)
 						}
 						if got := x.Snap(obj); got != node.snap {
 							// the same operations on a fresh object reached a different state: the
@@ -257,8 +261,12 @@ func (r *Run) statePart(x XSpec, nodes []xnode) {
 				c.Path = nodes[i].path
 				r.runCase(c, func(c *Case) {
 					obj := x.New()
-					for _, o := range c.Path {
+					x.warm(obj)
+					for j, o := range c.Path {
 						x.Ops[o].Do(obj)
+						if j < len(c.Path)-1 {
+							x.warm(obj)
+						}
 					}
 					x.CheckState(c, obj, c.Path)
 				}, w.id)
@@ -275,6 +283,7 @@ func (r *Run) statePart(x XSpec, nodes []xnode) {
 // last transition and the state check on the reached state.
 func (x XSpec) execPath(c *Case, path []int, stateCheck bool) {
 	obj := x.New()
+	x.warm(obj)
 	var res string
 	for i, o := range path {
 		if o < 0 || o >= len(x.Ops) {
@@ -285,9 +294,22 @@ func (x XSpec) execPath(c *Case, path []int, stateCheck bool) {
 		if x.Check != nil {
 			x.Check(c, obj, path[:i+1], res)
 		}
+		if i < len(path)-1 {
+			x.warm(obj)
+		}
 	}
 	if stateCheck && x.CheckState != nil {
 		x.CheckState(c, obj, path)
+	}
+}
+
+// warm calls the read-only operations of the object in every state a path
+// passes through (before the next mutation): semantically a no-op, it fills
+// whatever the implementation memoises, so that a memo a mutator forgets to
+// invalidate is stale in the successor state instead of simply absent.
+func (x XSpec) warm(obj interface{}) {
+	if x.Warm != nil {
+		x.Warm(obj)
 	}
 }
 
